@@ -905,23 +905,27 @@ def self_args(fn):
 
 def bind_args(fn, pos, kwargs, ip, node):
     a = fn.args
-    if a.vararg or a.kwarg or a.kwonlyargs or a.posonlyargs:
+    if a.vararg or a.kwarg or a.posonlyargs:
         raise Unsupported(node, "callee signature of %s" % fn.name)
     names = [x.arg for x in a.args]
+    kwonly = [x.arg for x in a.kwonlyargs]
     env = {}
     if len(pos) > len(names):
         raise AbstractRaise("TypeError", node, detail="too many arguments for %s" % fn.name)
     for n, v in zip(names, pos):
         env[n] = v
     for k, v in kwargs.items():
-        if k not in names or k in env:
+        if (k not in names and k not in kwonly) or k in env:
             raise AbstractRaise("TypeError", node, detail="bad keyword %s for %s" % (k, fn.name))
         env[k] = v
     defaults = a.defaults
     for n, d in zip(names[len(names) - len(defaults):], defaults):
         if n not in env:
             env[n] = ip.eval(d, {})
-    for n in names:
+    for n, d in zip(kwonly, a.kw_defaults):
+        if n not in env and d is not None:
+            env[n] = ip.eval(d, {})
+    for n in names + kwonly:
         if n not in env:
             raise AbstractRaise("TypeError", node, detail="missing argument %s of %s" % (n, fn.name))
     return env
